@@ -452,4 +452,70 @@ def runAlone (v : Ver) (m : Mdl) (k : Call) (c : Option CachedPlan) : Outcome :=
   if k.isPartial then partialRun m k.opsOk k.req.inputs k.req.outs
   else (run v m k.opsOk c k.req.inputs k.req.outs).1
 
+/-! ## A family of plan caches: the top-level graph and the graphs of `If` / `Loop` bodies
+
+Every `Graph` owns a `cached_plan` mutex.  The graph of an `If` branch or a `Loop` body is
+shared by all concurrent runs of the model; `run_subgraph` takes *its* mutex with
+`is_subgraph = true`.  Index 0 is the top-level graph (`is_subgraph = false`), every other index
+a subgraph.  Each critical section is atomic, so whatever the threads do between them, the
+shared state evolves along a list of lock events. -/
+
+/-- One critical section: which graph's cache, requested inputs and outputs. -/
+structure LockEv where
+  gi : Nat
+  ins : List Nat
+  outs : List Nat
+deriving Repr, DecidableEq, Inhabited
+
+def isSubOf (gi : Nat) : Bool := gi != 0
+
+/-- `get_cached_plan` on graph `e.gi` of the family: result (`none` = no such graph) and caches. -/
+def lockStep (graphs : List Graph) (caches : List (Option CachedPlan)) (e : LockEv) :
+    Option (Except PlanError (List Nat)) × List (Option CachedPlan) :=
+  match graphs[e.gi]?, caches[e.gi]? with
+  | some g, some c =>
+    let r := getCachedPlan .fixed g (isSubOf e.gi) c e.ins e.outs
+    (some r.1, caches.set e.gi r.2)
+  | _, _ => (none, caches)
+
+/-- Caches after a sequence of critical sections (in lock order). -/
+def cachesAfter (graphs : List Graph) : List LockEv → List (Option CachedPlan) → List (Option CachedPlan)
+  | [], cs => cs
+  | e :: es, cs => cachesAfter graphs es (lockStep graphs cs e).2
+
+/-- Was event `e` a cache hit in state `cs`? -/
+def lockHit (caches : List (Option CachedPlan)) (e : LockEv) : Bool :=
+  match caches[e.gi]? with
+  | some (some c) => c.matches .fixed e.ins e.outs
+  | _ => false
+
+/-- Hit/miss letters of a sequence of critical sections. -/
+def lockTrace (graphs : List Graph) : List LockEv → List (Option CachedPlan) → List Char
+  | [], _ => []
+  | e :: es, cs => (if lockHit cs e then 'h' else 'm') :: lockTrace graphs es (lockStep graphs cs e).2
+
+/-! ## Executable versions of the graph hypotheses of the theorems
+
+(`Lemmas/PlanCacheExec.lean` proves them sound; the harness evaluates the same predicates on
+the real `Graph` and the driver on the IR read back from it.) -/
+
+/-- All operator nodes with their ids. -/
+def opNodes (g : Graph) : List (Nat × OpNode) :=
+  (List.range g.nodes.length).filterMap (fun i => (getOp g i).map (fun op => (i, op)))
+
+def isValueB (g : Graph) (v : Nat) : Bool :=
+  match getNode g v with
+  | some .value => true
+  | _ => false
+
+/-- operator inputs are value or constant nodes -/
+def wfgB (g : Graph) : Bool := (opNodes g).all (fun e => (opInputs e.2).all (isValueOrConstant g))
+/-- operator outputs are value or constant nodes -/
+def wfgoB (g : Graph) : Bool := (opNodes g).all (fun e => (opOutputs e.2).all (isValueOrConstant g))
+/-- operator outputs are value nodes (`Executor.WF.outsValue`) -/
+def outsValueB (g : Graph) : Bool := (opNodes g).all (fun e => (opOutputs e.2).all (isValueB g))
+/-- every operator is the registered source of each of its outputs (`UniqueProducer`) -/
+def uniqueProducerB (g : Graph) : Bool :=
+  (opNodes g).all (fun e => (opOutputs e.2).all (fun v => sourceOf g v == some e.1))
+
 end RtenVerif.PlanCache
